@@ -511,8 +511,7 @@ def __calc_sample_con_eta_phi(
         )
 
     V = (N_phi[1, 0] * cos(phi) - N_phi[0, 0] * sin(phi)) * tan(eta)
-    sgn = sign(cos(eta))
-    eps = atan2(X * sgn, Y * sgn)
+    eps = atan2(X, Y)
     try:
         acos_rhs = acos(bound((sin(qaz) * cos(theta) / cos(eta) - V) / hypot(X, Y)))
     except AssertionError:
